@@ -128,6 +128,25 @@ func tamperings(pool *KeyPool, k *Key, good string, tamper string) (out []struct
 
 			add(fmt.Sprintf("header bit %d", i), join(h, payload, sig), k.JWK)
 		}
+		// a member added under a name the header already has (before and after the genuine one) - the decoded
+		// content is not what was signed - and a further member
+		var names map[string]interface{}
+
+		_ = json.Unmarshal(hdr, &names)
+		body := strings.TrimSpace(string(hdr))
+
+		if strings.HasPrefix(body, "{") && strings.HasSuffix(body, "}") && len(names) > 0 {
+			inner := body[1 : len(body)-1]
+			for name := range names {
+				for _, v := range []string{`"none"`, `null`, `17`} {
+					add(fmt.Sprintf("member %s repeated in front with value %s", name, v), join([]byte(fmt.Sprintf("{%q:%s,%s}", name, v, inner)), payload, sig), k.JWK)
+				}
+			}
+
+			add("further member crit", join([]byte(`{`+inner+`,"crit":["b64"],"b64":true}`), payload, sig), k.JWK)
+			add("further member b64 true", join([]byte(`{`+inner+`,"b64":true}`), payload, sig), k.JWK)
+			add("further member x", join([]byte(`{`+inner+`,"x":1}`), payload, sig), k.JWK)
+		}
 	case "payload_byte":
 		for i := range payload {
 			p := append([]byte(nil), payload...)
@@ -226,6 +245,28 @@ var jwsPayloads = [][]byte{
 	[]byte("x"),
 	{0, 1, 2, 0xff, 0xfe, 0x80, 0, 0},
 	bytes.Repeat([]byte("long payload "), 40),
+	// JSON texts that are not in canonical form, and text with periods: the payload is bytes, not a model
+	[]byte("{ \"b\" : 1.0, \"a\" : [1e2, \"\\u0041\"] }\n"),
+	[]byte("[1.0,2]"),
+	[]byte("a.b.c"),
+}
+
+// disturb sends requests that the library refuses (or serves) on paths that ordinary signing never takes, right before
+// a signature is made or verified: what they leave behind must not reach the next call.
+func disturb(k *Key) {
+	defer func() { _ = recover() }()
+
+	for _, payload := range [][]byte{[]byte("a.b"), []byte("."), {}} {
+		for _, h := range []jws.Headers{{"alg": k.Alg, "b64": false, "crit": []interface{}{"b64"}}, {"alg": k.Alg, "b64": false}, {"alg": k.Alg, "b64": "no"},
+			{"b64": false}, {"alg": 7}} {
+			_, _ = jwsutil.NewJWS(h, nil, payload, librarySigner(k))
+
+			hb, _ := json.Marshal(h)
+			_, _ = jwsutil.VerifyJWS(b64(hb)+"."+b64(payload)+"."+b64([]byte("sig")), k.JWK)
+			_, _ = jwsutil.VerifyJWS(b64(hb)+".."+b64([]byte("sig")), k.JWK, jwsutil.WithJWSDetachedPayload(payload))
+			_, _ = jwsutil.ParseJWS(b64(hb) + "." + string(payload) + "." + b64([]byte("sig")))
+		}
+	}
 }
 
 var shapedCache sync.Map
@@ -373,10 +414,16 @@ func jwsReplay(args []string) {
 			key := pool.Get(c.Kt, "jws-signer")
 
 			for pi, payload := range jwsPayloads {
+				disturb(key)
+
 				good, err := signShaped(key, payload, c.Shape)
 				if err != nil {
 					fail("sign-error", err.Error(), nil, nil, nil)
 					return
+				}
+
+				if pi%2 == 0 {
+					disturb(key)
 				}
 
 				// positive control: the matching key verifies and returns the payload unchanged
